@@ -6,6 +6,9 @@ From PowHsm Require Import Model.Pin.
 From PowHsm Require Import Model.Bringup.
 From PowHsm Require Import Model.PinHistory.
 From PowHsm Require Import Proofs.C10.
+From PowHsm Require Import Gen.Src.
+From PowHsm Require Import Proofs.SrcEquivPin.
+From PowHsm Require Import Proofs.SrcLiftPin.
 Open Scope N_scope.
 
 (* device policy: 8 alphanumeric characters, at least one letter (tied to the generated character tables by closed checks) *)
@@ -30,7 +33,7 @@ Theorem C10_commit_only_after_ack :
            new_pin k b w1 = (Ok true, w2) /\
            ok = fs_next w2 /\
            Forall is_apdu n /\
-           C09.new_events w (snd (pin_change_block k w)) = n ++ [PinFileWrite b ok].
+           C09.new_events w (snd (pin_change_block k w)) = (n ++ [PinFileWrite b ok])%list.
 Proof. exact (@commit_only_after_ack). Qed.
 
 (* a refused / failed change (or failed write) leaves the PIN in use untouched and no file is successfully written *)
@@ -59,7 +62,8 @@ Theorem C10_successful_change_commits :
          let w' := snd (pin_change_block k w) in
          pin w' =
          Some {| pin_cur := p; pin_needs_change := false; pin_changing := false; pin_new := None |} /\
-         (exists n : list event, Forall is_apdu n /\ C09.new_events w w' = n ++ [PinFileWrite p true]).
+         (exists n : list event,
+            Forall is_apdu n /\ C09.new_events w w' = (n ++ [PinFileWrite p true])%list).
 Proof. exact (@successful_change_commits). Qed.
 
 (* after any change attempt the manager stops (interrupt) instead of carrying on *)
@@ -136,5 +140,26 @@ Theorem C10_unrecoverable_forever :
          g_file s = Some [] ->
          recoverableb s = false -> forall h : list run, ~ recoverable (run_history s h).
 Proof. exact (@unrecoverable_forever). Qed.
+
+(* TIE BY TRANSLATION: BasePin.is_valid of ledger/pin.py, as regenerated from the source text, computes the model's policy on every byte string *)
+Theorem C10_source_pin_is_valid_is_model :
+  forall (cls : pv) (p : bytes) (any_pin : bool),
+         wf_bytes p ->
+         src_BasePin__is_valid cls (VBytes p) (VBool any_pin) = POk (VBool (pin_is_valid p any_pin)).
+Proof. exact (@src_pin_is_valid_ok). Qed.
+
+(* hence the source accepts (without any-pin) exactly 8 alphanumeric ASCII bytes with at least one letter *)
+Theorem C10_source_pin_policy_iff :
+  forall (cls : pv) (p : bytes),
+         wf_bytes p ->
+         src_BasePin__is_valid cls (VBytes p) (VBool false) = POk (VBool true) <->
+         Datatypes.length p = 8%nat /\ Forall alnum p /\ Exists alpha p.
+Proof. exact (@src_pin_policy_iff). Qed.
+
+(* and nothing that is not a bytes object (None, str, int) *)
+Theorem C10_source_pin_not_bytes :
+  forall cls v any_pin : pv,
+         py_type v <> TBytes -> src_BasePin__is_valid cls v any_pin = POk (VBool false).
+Proof. exact (@src_pin_is_valid_not_bytes). Qed.
 
 Example C10_nonvacuous : True. Proof. exact I. Qed. (* object-level and history-level runs closed by vm_compute in Proofs/C10.v *)
